@@ -225,6 +225,16 @@ def obligations(tier):
         assumes=[TM + "template 4: two one-byte recipients, any bytes, independent rcpthosts verdicts"],
         claim="template 4 (two recipients): replies in recipient order, K exactly for the acceptable ones, which are exactly the ones handed to the queue",
         expect_witnesses=["exit", "accepted_K", "recipient_refused", "resources", "accepted_K_relay", "queue_permanent", "queue_temporary"], **QMTP))
+    # a package is handled independently of what the same connection carried before: the template-4 package as the SECOND package,
+    # after a concrete accepted one (seeded change C07-flagbother-per-connection needed exactly this)
+    unw2 = dict(qmtp_unw(18)); unw2["qmtpd_main~for (;;) {"] = 3
+    obls.append(Obl("qmtpd_second_package", "qmtpd.c",
+        defines={"ARENA_CAP": 16, "ARENA_SLOTS": 1, "TEMPLATE": 4, "DB": 0, "WARMUP": None},
+        unwind_default=21, unwind=unw2,
+        assumes=[TM + "template 4 as the second package of the connection; the first package is the concrete accepted package 1:LF,0:,3:0:,,"],
+        claim="the second package of a connection is answered and queued exactly like a first one (no state of the earlier package leaks into it): "
+              "in particular no acceptable recipient => nothing queued",
+        expect_witnesses=["exit", "accepted_K", "recipient_refused"], **QMTP))
     def long_n5(al):
         dg = lambda x: len(str(x))
         big = dg(al) + 1 + al + 1
